@@ -264,6 +264,14 @@ func historicalCases(r *sim.Rng, blocks int) {
 		case 5: // governance: change the delegate cap (0 = unlimited)
 			txs = append(txs, sim.TxBytes(fsm.NewChangeParamTxUint64(sim.BLSKey(0).Priv, fsm.ParamSpaceVal, fsm.ParamMaximumDelegatesPerCommittee, r.Pick(0, 1, 2, 3), h, h+5, 1, 1, 10000, h, "")))
 		}
+		if b%2 == 0 {
+			// a height the chain has not reached yet is asked for (certificate results name root heights freely); whatever the
+			// answer, it must not be remembered as the committee of that height once the chain gets there
+			n.Enter()
+			_, _ = n.FSM.LoadCommittee(1, h+1+uint64(r.Intn(3)))
+			_, _ = n.FSM.LoadCommittee(1, 0)
+			st.ByKind["asked-before-the-height-existed"]++
+		}
 		if b%3 == 1 {
 			// the committee of the CURRENT height asked for in the middle of a block: uncommitted validator changes on the live
 			// state machine (a new top staker, a paused member), a committee question answered by the live state machine (its
